@@ -456,4 +456,104 @@ theorem dict2entry_opt (sch : Schema) (opt : Option (Str × Nat)) (obj : KVs) :
         | none => rfl
         | some w => cases w <;> simp [optKey]
 
+/-- every attribute written comes from a row whose object field is present -/
+theorem dict2entry_keys_present (sch : Schema) (opt : Option (Str × Nat)) (obj : KVs) :
+    ∀ e, dict2entry sch opt obj = some e →
+      ∀ p ∈ e, ∃ r ∈ sch, p.1 = optKey opt r.1 ∧ (lookup r.2.1 obj).isSome = true := by
+  induction sch with
+  | nil => intro e h; simp [dict2entry] at h; subst h; simp
+  | cons row rest ih =>
+    obtain ⟨lf, of, ft⟩ := row
+    intro e h p hp
+    simp only [dict2entry] at h
+    cases ht : dict2entry rest opt obj with
+    | none => simp [ht] at h
+    | some tail =>
+      simp only [ht] at h
+      have htail : ∀ q ∈ tail, ∃ r ∈ (lf, of, ft) :: rest, q.1 = optKey opt r.1 ∧ (lookup r.2.1 obj).isSome = true := by
+        intro q hq
+        obtain ⟨r, hr, e⟩ := ih tail ht q hq
+        exact ⟨r, List.mem_cons_of_mem _ hr, e⟩
+      cases hl : lookup of obj with
+      | none => simp only [hl, Option.some.injEq] at h; subst h; exact htail p hp
+      | some v =>
+        simp only [hl] at h
+        cases hf : encodeField ft v with
+        | none => simp [hf] at h
+        | some w =>
+          cases w with
+          | none => simp only [hf, Option.some.injEq] at h; subst h; exact htail p hp
+          | some vals =>
+            simp only [hf, Option.some.injEq] at h
+            subst h
+            rcases List.mem_cons.mp hp with rfl | hp
+            · exact ⟨(lf, of, ft), by simp, rfl, by simp [hl]⟩
+            · exact htail p hp
+
+/-! ### decidable checkers for the well-formedness predicates (sound, conservative on `dict` fields) -/
+
+def valOKb : FT → JVal → Bool
+  | _, .null => true
+  | .str, .str _ => true
+  | .str, .float _ => true
+  | .int, .int _ => true
+  | .bool, .bool _ => true
+  | .listStr, .arr l => l.all isStrOrNull
+  | .listInt, .arr l => l.all isIntOrNull
+  | _, _ => false
+
+theorem valOKb_sound (ft : FT) (v : JVal) (h : valOKb ft v = true) : valOK ft v := by
+  cases ft <;> cases v <;> simp_all [valOKb, valOK]
+
+def objWFb (sch : Schema) (obj : KVs) : Bool :=
+  sch.all (fun r => match lookup r.2.1 obj with
+    | none => true
+    | some v => valOKb r.2.2 v)
+
+theorem objWFb_sound (sch : Schema) (obj : KVs) (h : objWFb sch obj = true) : ObjWF sch obj := by
+  intro r hr v hv
+  have := List.all_eq_true.mp h r hr
+  simp only [hv] at this
+  exact valOKb_sound _ _ this
+
+/-! ### `_empty_list_entry` -/
+
+theorem setKey_mem {α} (k : Str) (v : α) (l : List (Str × α)) (p : Str × α) (h : p ∈ setKey k v l) :
+    p = (k, v) ∨ p ∈ l := by
+  induction l with
+  | nil => simp [setKey] at h; exact Or.inl h
+  | cons q r ih =>
+    obtain ⟨k', v'⟩ := q
+    simp only [setKey] at h
+    split at h
+    · rcases List.mem_cons.mp h with h | h
+      · exact Or.inl h
+      · exact Or.inr (List.mem_cons_of_mem _ h)
+    · rcases List.mem_cons.mp h with h | h
+      · exact Or.inr (by simp [h])
+      · rcases ih h with h | h
+        · exact Or.inl h
+        · exact Or.inr (List.mem_cons_of_mem _ h)
+
+theorem emptyListEntry_mem (sch : Schema) : ∀ p ∈ emptyListEntry sch, p.2 = [] ∧ ∃ r ∈ sch, p.1 = r.1 := by
+  suffices h : ∀ (l : Schema) (acc : Entry), (∀ p ∈ acc, p.2 = [] ∧ ∃ r ∈ sch, p.1 = r.1) → (∀ r ∈ l, r ∈ sch) →
+      ∀ p ∈ l.foldl (fun acc r => setKey r.1 [] acc) acc, p.2 = [] ∧ ∃ r ∈ sch, p.1 = r.1 from
+    h sch [] (by intro p hp; cases hp) (fun r hr => hr)
+  intro l
+  induction l with
+  | nil => intro acc hacc _ p hp; exact hacc p hp
+  | cons row rest ih =>
+    intro acc hacc hsub p hp
+    simp only [List.foldl_cons] at hp
+    refine ih (setKey row.1 [] acc) ?_ (fun r hr => hsub r (List.mem_cons_of_mem _ hr)) p hp
+    intro q hq
+    rcases setKey_mem _ _ _ _ hq with rfl | hq
+    · exact ⟨rfl, row, hsub row (by simp), rfl⟩
+    · exact hacc q hq
+
+theorem removeEmpty_emptyListEntry (sch : Schema) : removeEmpty (emptyListEntry sch) = [] := by
+  simp only [removeEmpty, List.filter_eq_nil_iff]
+  intro p hp
+  simp [(emptyListEntry_mem sch p hp).1]
+
 end TmVerif.Codec
